@@ -17,6 +17,10 @@
                                  the logging wrapper of c13_sinkrows is invisible: erasing the log,
                                  write_all / pos_write over it are Sink.write_all / Sink.pos_write over
                                  Sink.sink_write (the subject of SinkProofs / C13_pos_counts) *)
+From MLA Require Import Limit.
+From MLAGen Require Src.
+(* executable entry points: the production value of BINCODE_MAX_DESERIALIZE (the same in both flavours), file-local *)
+#[local] Instance RUN_LIMIT : Limit := MLAGen.Src.BINCODE_MAX_DESERIALIZE_prod.
 From MLA Require Import Base Stream Inst EncLayer EncWriter InstGcm Sink Gcm Format
   Ecies EciesGcm CompLayer Archive ArchiveInst.
 From MLA Require Import Blocks Writer RunWRows.
@@ -97,6 +101,7 @@ Definition oracle_cfg (dh : bytes -> bytes -> bytes) (cfg : wconfig) : wconfig :
 
 Section OracleMode.
   Variables CHUNK CIPHERBUF BLOCK LIMIT FNMAX TS TC TA TE : N.
+  Local Hint Extern 0 Limit => exact LIMIT : typeclass_instances.
   Variable H : bytes -> bytes.
   Variable order : footer -> footer.
   Variable pubk : bytes -> bytes.
